@@ -58,6 +58,12 @@ CHECKS = {
  "C15": ("rpcsim", "exploration", "runtime monitoring: real rpc.Client/Wire/Server against a scripted peer with an independent codec; porcupine linearizability check of end-to-end histories",
          "Held on the generated scenarios: frames round-tripped unchanged in both directions (also with concurrent writers), every call received exactly the reply generated for its own request under bounded reordering, duplicates and unknown sequence numbers; end-to-end histories through the real server were linearizable per block; after a stall, a late reply, close, reset or garbage every pending and later call failed, no request was sent twice and the failure was reported on the close channel.",
          "Read/write deadlines 1 s via the production knobs; sync/unmap/ping deadlines are constants (30/40 s) and are exercised once in the thorough tier.", "DESIGN.md 4/C15"),
+ "C07": ("cluster", "exploration", "runtime monitoring on real processes: kill/stop -> restart -> rebuild cycles under foreground writes; round-robin read sweep + extent-exact directory comparison at promotion; sampled mode timeline",
+         "Held (apart from the listed known finding F11) on the executed rebuild cycles: when the rebuilt replica was first listed RW every chunk read at every reader position equalled the model of acknowledged writes (the promoted replica serves through its live block map), its stored live image and every user snapshot were byte-identical to the source's and equal to the model, revision counters and chains were equal, never two replicas were WO at once, and a restarted replica only became RW after its process ran reload-and-verify.",
+         "Schedules come from OS timing, seeded and log-marker-triggered kills; bounded waits expiring are inconclusive.", "DESIGN.md 4/C07"),
+ "C19": ("cluster", "exploration", "runtime monitoring on real processes: clone replica started against a live source volume; replica-side status sampling; image and counter comparison at completion",
+         "Held on the executed clone scenarios (snapshot at varying chain positions; no fault, source writes during the copy, source killed, clone killed, non-existent snapshot): the clone never reported mode RW without status completed, the completed clone read back exactly the snapshot image (model and revert-on-copy of the source directory), carried the revision counter recorded for the snapshot and accepted writes; a clone that cannot succeed was never served.",
+         "The new controller holds its lock while polling, so intermediate states are sampled at the clone replica's REST endpoint.", "DESIGN.md 4/C19"),
 }
 
 NOT_YET = "check not built yet in this round (see DESIGN.md build order); no verdict claimed"
@@ -84,6 +90,8 @@ def main():
         "kind_free_text": "real controller/rest and replica/rest routers driven in-process; journal-before-execute, panic capture, liveness + TryLock oracle; action-table matrix and attach rule with the real remote.Factory"},
        {"name": "rpcsim", "path": "harness/internal/rpcsim", "serves_properties": ["C15"],
         "kind_free_text": "real rpc.Client / rpc.Wire / rpc.Server over loopback TCP against a scripted peer with an independent frame codec; porcupine for end-to-end histories"},
+       {"name": "cluster", "path": "harness/internal/cluster", "serves_properties": ["C05", "C07", "C09", "C13", "C19"],
+        "kind_free_text": "in-process controller with the real remote factory + REST server, real jiva replica and sync-agent OS processes on their own loopback addresses, supervisor-style kill/restart, model of acknowledged writes"},
        {"name": "ctlsim", "path": "harness/internal/ctlsim", "serves_properties": ["C01", "C02", "C03", "C04", "C05", "C09", "C13", "C16", "C18"],
         "kind_free_text": "real controller.Controller over scripted types.Backend fakes (per-call outcome scripts, applied logs, remote.Remote-like monitor channel) + HTTP stubs of the replica REST API"},
      ],
